@@ -2,7 +2,7 @@
 //verif:use fakes_client
 //verif:use fakes_mcp
 //verif:use streams_mcp
-//verif:bound one pending call per client and one fault: the answer stream has delivered {nothing, an id line, a partial data line, a complete notification event, the complete answer} when it {ends (EOF), fails (reset), stalls and the caller's context is cancelled, stalls and the deadline passes}; Streamable client with SSE answers (with / without notification handler) and JSON answers cut at {start, middle, end}; legacy SSE client (pending call, then a second call after the stream ended); stdio client transport with {context cancelled, transport timeout, process exit, Close from another goroutine - every schedule with <= 2 preemptions}; legacy SSE client: Close while the reader delivers an answer - every schedule with <= 3 (thorough 4) preemptions; release: goroutines and table entries after Close on each client and after the peer's streams end on the Streamable and legacy SSE servers
+//verif:bound one pending call per client and one fault: the answer stream has delivered {nothing, an id line, a partial data line, a complete notification event, the complete answer} when it {ends (EOF), fails (reset), stalls and the caller's context is cancelled, stalls and the deadline passes}; Streamable client with SSE answers (with / without notification handler) and JSON answers cut at {start, middle, end}; legacy SSE client (pending call, then a second call after the stream ended); stdio client transport with {context cancelled, transport timeout, the child process exiting with status 0 or 3 with or without a truncated line before (a real /bin/sh natively, a modelled exec.Cmd whose Wait blocks until the exit in the engine), Close from another goroutine - every schedule with <= 2 preemptions}; legacy SSE client: Close while the reader delivers an answer - every schedule with <= 3 (thorough 4) preemptions; release: goroutines and table entries after Close on each client and after the peer's streams end on the Streamable and legacy SSE servers
 //verif:assume request bodies observe the request context as net/http's do (a read fails once the context ends); real sockets, child processes and file descriptors are outside the claim (the stdio transport runs over in-memory pipes); faults at byte offsets other than the listed boundaries are outside the bound
 package mcp
 
@@ -350,6 +350,19 @@ func c08Stdio(timeout time.Duration) (*stdioClientTransport, *c08Stream) {
 	return t, out
 }
 
+// c08StdioProc: the same with a child process the harness controls and the transport's own watcher.
+func c08StdioProc(timeout time.Duration) (*stdioClientTransport, *c08Stream) {
+	t := newStdioClientTransport(StdioServerParameters{Command: "none"}, withStdioTransportTimeout(timeout))
+	out := newC08Stream(context.Background())
+	t.process = vProcStart()
+	t.stdin = &c08Pipe{}
+	t.stdout = out
+	t.encoder = json.NewEncoder(t.stdin)
+	go t.readLoop()
+	go t.processWatcher()
+	return t, out
+}
+
 type c08Raw struct {
 	raw  *json.RawMessage
 	err  error
@@ -369,8 +382,17 @@ func (o *c08Raw) wait() bool {
 // process ends.
 func H_C08_stdio_call() {
 	fault := vChoice("fault", 4)
+	code := 0
+	if fault >= 2 {
+		code = []int{0, 3}[vChoice("exitcode", 2)]
+	}
 	base := vGoroutines()
-	t, out := c08Stdio(300 * time.Millisecond)
+	// the transport's own timeout is the subject of fault 1 only; otherwise it is long (the default is 30 s)
+	timeout := 30 * time.Second
+	if fault == 1 {
+		timeout = 300 * time.Millisecond
+	}
+	t, out := c08StdioProc(timeout)
 	ctx, cancel := context.WithCancel(context.Background())
 	defer cancel()
 	o := &c08Raw{done: make(chan struct{})}
@@ -385,16 +407,16 @@ func H_C08_stdio_call() {
 	case 1:
 		// nothing: the transport's own timeout passes
 	case 2:
-		// the process exits: stdout ends and the watcher cancels the transport context
+		// the process exits (cleanly or not): its stdout ends and the transport's watcher sees the exit
 		close(out.ch)
-		t.cancel()
+		vProcExit(t.process, code)
 	default:
 		// a truncated line, then the process exits
 		out.ch <- []byte("{\"jsonrpc\":\"2.0\",\"id\":1,\"resu")
 		close(out.ch)
-		t.cancel()
+		vProcExit(t.process, code)
 	}
-	vAssert("call-returns-after-the-fault", o.wait())
+	vAssert("call-returns-promptly-after-the-fault", o.wait())
 	if !o.wait() {
 		return
 	}
@@ -403,6 +425,9 @@ func H_C08_stdio_call() {
 	pending := len(t.pendingRequests)
 	t.pendingMutex.RUnlock()
 	vAssert("nothing-left-pending", pending == 0)
+	if fault < 2 {
+		vProcExit(t.process, 0)
+	}
 	vAssert("close-succeeds", t.close() == nil)
 	vQuiesce()
 	vAssert("pipes-closed", vAnd(out.closed, t.stdin.(*c08Pipe).closed))
